@@ -322,6 +322,9 @@ def rule_dvalue(program, ctx):
 
 
 def run(program, ctx):
+    from . import c07
+
+    c07.rule_sqlregion(program, ctx, prop=P, rid="C09.txn")
     rule_classes(program, ctx)
     rule_frame_sql(program, ctx)
     rule_all_sql(program, ctx)
